@@ -1,6 +1,8 @@
 (* C10 - Over successive ceremonies accepted SKRs form one unbroken, authentic timeline. *)
 From KV Require Import Base.Prelude Base.Exn Base.Bytes Model.Data Model.Wire Model.KsrPolicy Model.Chain Model.Token Model.Sign Model.History
-  Spec.ChainRules Proofs.HistoryProofs.
+  Model.SchemaTable Spec.ChainRules Proofs.HistoryProofs Proofs.SchemaTableProofs.
+From Coq Require Import String.
+From KV Require Gen.Schemas.
 
 (* one step: whatever a ceremony accepts on top of an accepted SKR is linked to it *)
 Theorem C10_ceremony_link : forall H token_sign verify ds_hex c a st b,
@@ -30,3 +32,13 @@ Theorem C10_refused_ceremony_keeps_state : forall H token_sign verify ds_hex c p
   accepted_from H token_sign verify ds_hex c prev (st :: rest) = accepted_from H token_sign verify ds_hex c prev rest.
 Proof. exact refused_ceremony_keeps_state. Qed.
 Print Assumptions C10_refused_ceremony_keeps_state.
+
+(* the seven example schemas: which may follow which under the identifier half of the publish / retire rules (rows: previous, columns: next) *)
+Theorem C10_example_schema_table :
+  map (fun r => (fst r, map snd (snd r))) (table example_window Gen.Schemas.example_schemas) = example_table.
+Proof. exact example_schema_table. Qed.
+Print Assumptions C10_example_schema_table.
+
+Theorem C10_example_schemas_internally_retire_safe : forallb (fun p => stays_listed (snd p)) Gen.Schemas.example_schemas = true.
+Proof. exact example_schemas_internally_retire_safe. Qed.
+Print Assumptions C10_example_schemas_internally_retire_safe.
